@@ -186,6 +186,21 @@ def run(chk: Check, model):
     chk.add("C20.pipeline", "same normalisation flags at training / evaluation time", len(flags) >= 2 and all(f == {"clip": "True", "subtract_mean": "True"} for f in flags),
             f"training-time normalize flags: {flags}", chk.loc(f_t))
     # ---------------------------------------------------------------- extraction
+    # what is extracted from: the result of train() carries the final carry of the training scan, component by component
+    f_t2, rt = _r(model, "ppo.train")
+    sc = [e for e in rt.events if e.kind == "call" and e.name == "jax.lax.scan" and e.func == f_t2.qualname]
+    ok = len(sc) == 1 and rt.ret[0] == "obj" and rt.ret[1] == "PPOResult"
+    if ok:
+        carry = T.mk_index(sc[0].term, T.ZERO)
+        rs = dict(rt.ret[2]).get("runner_state", T.NONE)
+        fields = dict(rs[2]) if rs[0] == "obj" and rs[1] == "RunnerState" else {}
+        ok = rs == carry or (bool(fields) and all(fields.get(k) == T.mk_index(carry, T.const(i)) for i, k in enumerate(("train_state", "env_state", "last_obs", "rng"))))
+        # the scan is started from (train_state, env_state, obs, rng) in this order, so the components mean what their names say
+        init = sc[0].args[1] if len(sc[0].args) > 1 else T.NONE
+        ok = ok and init[0] == "tuple" and len(init[1]) == 4
+    chk.add("C20.extract", "train() returns the final training carry (parameters and environment state of the same update)", bool(ok),
+            f"PPOResult.runner_state = {T.show(dict(rt.ret[2]).get('runner_state', T.NONE))[:200] if rt.ret[0] == 'obj' else T.show(rt.ret)[:100]}, expected the four components of the final scan carry "
+            "(the exported normalisation statistics live in env_state.aux)", chk.loc(f_t2))
     f_x, rx = _r(model, "ppo.PPOResult.policy")
     chk.used(f_x.qualname)
     pol = rx.ret
